@@ -246,6 +246,7 @@ impl Bitfield {
         for (i, rows) in self.data.chunks(num_rows).enumerate() {
             // Check that these rows are free
             if rows.iter().all(|e| e.load() == 0) {
+                let mut success = true;
                 for (j, row) in rows.iter().enumerate() {
                     if let Err(_) = row.compare_exchange(0, u64::MAX) {
                         // Undo previous updates
@@ -254,10 +255,14 @@ impl Bitfield {
                                 .compare_exchange(u64::MAX, 0)
                                 .expect("Failed undo search");
                         }
+                        success = false;
                         break;
                     }
                 }
-                return Ok(RowId(i * num_rows));
+                // Someone else was faster: continue with the next rows
+                if success {
+                    return Ok(RowId(i * num_rows));
+                }
             }
         }
         Err(Error::Memory)
